@@ -538,10 +538,19 @@ class ImplRunner:
             except OverflowError:
                 toks.append('ovrfin=0')
         try:
-            for k, v in raw.items():
+            # `last`: that key is given through set(key, value) on the otherwise configured object ("rejected ... at construction or set()
+            # time"); `before`: values the object held earlier (overwritten by the final ones)
+            last = op.get('last')
+            for k, v in (op.get('before') or {}).items():
                 P.set(k, v, validate=False)
+            for k, v in raw.items():
+                if k != last:
+                    P.set(k, v, validate=False)
             P.wait_func = _noop_wait
-            P.validate()
+            if last is None:
+                P.validate()
+            else:
+                P.set(last, raw[last])
             res = 'ok'
         except Exception as e:
             res = 'exc %s' % type(e).__name__
